@@ -208,7 +208,15 @@ pub fn refusal_required(h: &Hdr) -> Option<String> {
 /// Serialise a header (fields as given, extensions, backing name placed after them).
 /// `backing_file_offset` / `backing_file_size` / `header_length` are recomputed.
 pub fn ser_header(h: &Hdr) -> Vec<u8> {
-    let hl: usize = if h.version == 2 { 72 } else { 112 };
+    // version 3 headers may be 104 bytes (no compression type byte) or longer than 112 (unknown
+    // fields, zero here); any other value of the field means "the usual 112"
+    let hl: usize = if h.version == 2 {
+        72
+    } else if h.header_length >= 104 && h.header_length % 8 == 0 && h.header_length <= 512 {
+        h.header_length as usize
+    } else {
+        112
+    };
     let mut b = vec![0u8; hl];
     put32(&mut b, 0, MAGIC);
     put32(&mut b, 4, h.version);
@@ -227,7 +235,9 @@ pub fn ser_header(h: &Hdr) -> Vec<u8> {
         put64(&mut b, 88, h.autoclear);
         put32(&mut b, 96, h.refcount_order);
         put32(&mut b, 100, hl as u32);
-        b[104] = h.compression_type;
+        if hl > 104 {
+            b[104] = h.compression_type;
+        }
     }
     for (t, d) in &h.exts {
         let mut e = vec![0u8; 8];
